@@ -71,6 +71,32 @@ theorem proof_sound {H : Bytes → Bytes} (hlen : ∀ x, (H x).length = 32) (roo
       · exact Or.inr c
     · exact Or.inr c
 
+/-- **proof_sound_located** — the same with the collision *located*: the two colliding pre-images are among the
+(finitely many) strings the two verification runs actually hash (`verifyTrace`), so the disjunct is not the
+classically trivial "some collision exists somewhere" but exactly the reduction's output. -/
+theorem proof_sound_located {H : Bytes → Bytes} (hlen : ∀ x, (H x).length = 32) (root k v k' v' pb : Bytes)
+    (h1 : verifyKVPairProof H root k v pb = true) (h2 : verifyKVPairProof H root k' v' pb = true) :
+    (k' = k ∧ v' = v) ∨ CollisionIn H (verifyTrace H k v pb ++ verifyTrace H k' v' pb) := by
+  unfold verifyKVPairProof at h1 h2
+  unfold verifyTrace
+  cases hd : decodeProof pb with
+  | none => simp [hd] at h1
+  | some ins =>
+    simp only [hd, Proof.verify, bne_self_eq_false, Bool.false_eq_true, if_false] at h1 h2
+    have l1 := last32_of_length (hlen (leafEnc k v))
+    have l2 := last32_of_length (hlen (leafEnc k' v'))
+    simp only [l1, l2, bne_self_eq_false, Bool.false_eq_true, if_false, beq_iff_eq] at h1 h2
+    rcases fold_inj_located hlen ins _ _ (hlen _) (hlen _) (h2.trans h1.symm) with e | c
+    · by_cases hp : leafEnc k' v' = leafEnc k v
+      · exact Or.inl (leafEnc_inj hp)
+      · exact Or.inr ⟨leafEnc k' v', by simp, leafEnc k v, by simp, hp, e⟩
+    · refine Or.inr (c.mono ?_)
+      intro y hy
+      simp only [List.mem_append, List.mem_cons] at hy ⊢
+      rcases hy with hy | hy
+      · exact Or.inr (Or.inr hy)
+      · exact Or.inl (Or.inr hy)
+
 /-- **verify_other_root** — a proof accepted for `(k, v)` against `root` is rejected against every other root. -/
 theorem verify_other_root (H : Bytes → Bytes) (root root' k v pb : Bytes)
     (h1 : verifyKVPairProof H root k v pb = true) (hne : root' ≠ root) :
